@@ -1993,6 +1993,32 @@ def _suppress_to_try(tree: ast.Module) -> int:
   return n
 
 
+def _map_to_genexp(tree: ast.Module) -> int:
+  """`map(f, xs)` with one iterable and a plain function reference is `(f(x) for x in xs)`: written out so that a private
+  helper passed to map() is seen (and inlined) like any other call of it."""
+  n = 0
+  mod_private = {st.name for st in tree.body if isinstance(st, ast.FunctionDef) and st.name.startswith('_')}
+
+  class T(ast.NodeTransformer):
+    def visit_Call(self, c: ast.Call):
+      nonlocal n
+      self.generic_visit(c)
+      if isinstance(c.func, ast.Name) and c.func.id == 'map' and len(c.args) == 2 and not c.keywords \
+          and ((isinstance(c.args[0], ast.Name) and c.args[0].id in mod_private) or
+               (isinstance(c.args[0], ast.Attribute) and isinstance(c.args[0].value, ast.Name) and c.args[0].value.id in ('self', 'cls')
+                and c.args[0].attr.startswith('_'))):
+        n += 1
+        v = f'mapped__m{n}'
+        g = ast.GeneratorExp(elt=ast.Call(func=c.args[0], args=[ast.Name(id=v, ctx=ast.Load())], keywords=[]),
+                             generators=[ast.comprehension(target=ast.Name(id=v, ctx=ast.Store()), iter=c.args[1], ifs=[], is_async=0)])
+        ast.copy_location(g, c)
+        ast.fix_missing_locations(g)
+        return g
+      return c
+  T().visit(tree)
+  return n
+
+
 def _filter_loops_to_comprehensions(fn: ast.FunctionDef) -> int:
   """`A = []; B = []; for t in SRC: if c1: A.append(e1) elif c2: B.append(e2)` (pure conditions and elements, each
   list appended in one arm only and mentioned nowhere else in the loop) is the pair of comprehensions
@@ -2176,7 +2202,7 @@ def _propagate_param_aliases(fn: ast.FunctionDef) -> int:
 def normalise(tree: ast.Module, exclude: Optional[Set[str]] = None) -> int:
   """Inlines suitable private helpers in place; returns the number of inlined call sites."""
   ex = anchors() if exclude is None else exclude
-  n_disp = _suppress_to_try(tree) + _expand_dispatch_tables(tree)
+  n_disp = _suppress_to_try(tree) + _map_to_genexp(tree) + _expand_dispatch_tables(tree)
   inl = _Inliner(tree, ex)
   n = inl.run() + n_disp
   n += _unroll_literal_loops(tree)
